@@ -14,6 +14,8 @@ from __future__ import annotations
 import io
 import re
 
+from collections import Counter
+
 from hypothesis import strategies as st
 
 from vf.common import call_sut, run_given, shard_seed
@@ -51,7 +53,7 @@ def build_report(files, repo=False):
     from codelimit.common.report.Report import Report
 
     cb = Codebase("/")
-    for f in files:
+    for f in map(_expand, files):
         ms = []
         line = 1
         for i, v in enumerate(f["lengths"]):
@@ -62,9 +64,16 @@ def build_report(files, repo=False):
     return Report(cb, GithubRepository("own", "nam", branch="br") if repo else None)
 
 
+def _expand(f):
+    """'runs': [[length, count], ...] is the compact form of a long 'lengths' list (reports with thousands of functions)."""
+    if "runs" in f:
+        return dict(f, lengths=[v for v, c in f["runs"] for _ in range(c)])
+    return f
+
+
 def stored_totals(files):
     t = {}
-    for f in files:
+    for f in map(_expand, files):
         d = t.setdefault(f["language"], dict.fromkeys(FIELDS, 0))
         d["files"] += 1
         d["functions"] += len(f["lengths"])
@@ -74,11 +83,11 @@ def stored_totals(files):
     return t
 
 
-def render(fn):
+def render(fn, width=400):
     from rich.console import Console
 
     buf = io.StringIO()
-    console = Console(file=buf, width=400, force_terminal=False, color_system=None, soft_wrap=True)
+    console = Console(file=buf, width=width, force_terminal=False, color_system=None, soft_wrap=True)
     fn(console)
     return buf.getvalue()
 
@@ -209,6 +218,53 @@ def check_overview(case):
     return None
 
 
+_FIG = re.compile(r"\([+-]\d+\)|\d+")
+
+
+def check_overview_narrow(case):
+    """The text overview on a console as narrow as a pipe gives it (80 columns), for reports whose figures are wide: a
+    cell may be folded over several lines, but every stored figure and every annotation must still be there in full."""
+    from codelimit.common.report import format_text
+
+    r = call_sut(build_report, case["current"])
+    if r[0] == "exc":
+        return (f"build:{r[1]}", r[2])
+    cur = r[1]
+    prev = None
+    if case["previous"] is not None:
+        r = call_sut(build_report, case["previous"])
+        if r[0] == "exc":
+            return (f"build:{r[1]}", r[2])
+        prev = r[1]
+    want = stored_totals(case["current"])
+    wprev = stored_totals(case["previous"]) if case["previous"] is not None else None
+    expect = Counter()
+    for n, t in want.items():
+        for col in COLS:
+            expect[str(t[col])] += 1
+            if wprev is not None and n in wprev and t[col] != wprev[n][col]:
+                expect[f"({t[col] - wprev[n][col]:+d})"] += 1
+    if len(want) > 1:
+        for col in COLS:
+            tw = sum(t[col] for t in want.values())
+            expect[str(tw)] += 1
+            if wprev is not None and tw != sum(t[col] for t in wprev.values()):
+                expect[f"({tw - sum(t[col] for t in wprev.values()):+d})"] += 1
+    for width in case["widths"]:
+        r = call_sut(render, lambda c: format_text.print_totals(c, cur, prev), width)
+        if r[0] == "exc":
+            return (f"render:text@{width}:{r[1]}", r[2])
+        out = r[1]
+        found = Counter(_FIG.findall(out))
+        missing = expect - found
+        if missing:
+            return (f"text@narrow:figure-lost", f"at width {width} the figures / annotations {dict(missing)} are not shown in full\n{out}")
+        for n in want:
+            if n not in out:
+                return (f"text@narrow:language-lost", f"at width {width} the row label {n!r} is not shown\n{out}")
+    return None
+
+
 def _render_via_command(cur, prev):
     """The same overview through report_command: reports written to disk, read back by the command."""
     from codelimit.common.report.ReportWriter import ReportWriter
@@ -293,7 +349,7 @@ def check_findings(case):
     if r[0] == "exc":
         return (f"build:{r[1]}", r[2])
     report = r[1]
-    allf = [(f["path"], f"fn{i}", v) for f in files for i, v in enumerate(f["lengths"])]
+    allf = [(f["path"], f["names"][i] if "names" in f else f"fn{i}", v) for f in files for i, v in enumerate(f["lengths"])]
     want = sorted([t for t in allf if t[2] > 30], key=lambda t: -t[2])
     n = len(want)
     nshow = n if full else min(10, n)
@@ -332,7 +388,7 @@ def check_findings(case):
         lens = [t[2] for t in shown]
         if lens != sorted(lens, reverse=True):
             return (f"{fmt}:order", f"lengths {lens} not longest first\n{out}")
-        if any(t not in want for t in shown) or len(set(shown)) != len(shown):
+        if Counter(shown) - Counter(want):  # as multisets: overloads give several findings of one name (and length) in a file
             return (f"{fmt}:not-a-finding", f"shown {shown} are not all distinct functions > 30 of the report {want}\n{out}")
         if sorted(lens, reverse=True) != [t[2] for t in want[:nshow]]:
             return (f"{fmt}:not-the-longest", f"shown lengths {lens}, the {nshow} longest are {[t[2] for t in want[:nshow]]}\n{out}")
@@ -345,11 +401,23 @@ def check_findings(case):
 def run_case(case):
     if case["kind"] == "overview":
         return check_overview(case)
+    if case["kind"] == "narrow":
+        return check_overview_narrow(case)
     return check_findings(case)
 
 
 def shrink_candidates(case):
-    if case["kind"] == "overview":
+    if case["kind"] == "narrow":
+        for key in ("current", "previous"):
+            fs = case[key]
+            if fs is None:
+                continue
+            for i in range(len(fs)):
+                yield dict(case, **{key: fs[:i] + fs[i + 1 :]})
+        for w in case["widths"]:
+            if len(case["widths"]) > 1:
+                yield dict(case, widths=[w])
+    elif case["kind"] == "overview":
         for key in ("current", "previous"):
             fs = case[key]
             if fs is None:
@@ -421,7 +489,36 @@ def findings_cases(draw):
     files = [{"path": f"d{i}/f{i}.py" if i % 2 else f"f{i}.js", "language": "Python" if i % 2 else "JavaScript", "lengths": []} for i in range(nfiles)]
     for v in allv:
         files[draw(st.integers(0, nfiles - 1))]["lengths"].append(v)
+    if draw(st.booleans()):
+        # overloads: a file may hold several functions of one name
+        for f in files:
+            f["names"] = [draw(st.sampled_from(["area", "scale", "run"])) for _ in f["lengths"]]
     return {"kind": "findings", "files": files, "full": draw(st.booleans()), "repo": draw(st.booleans()), "via": draw(st.sampled_from(["api"] * 7 + ["command"]))}
+
+
+@st.composite
+def narrow_cases(draw):
+    """Reports with 4..7-digit figures in every column but 'files', rendered at 80 / 100 / 120 columns."""
+    langs = draw(st.permutations(LANGS))[: draw(st.integers(1, 4))]
+
+    def big(tag):
+        out = []
+        for k, lang in enumerate(langs):
+            runs = [[draw(st.integers(1, 30)), draw(st.integers(500, 4000))], [draw(st.integers(31, 60)), draw(st.integers(1000, 4000))],
+                    [draw(st.integers(61, 400)), draw(st.integers(1000, 4000))]]
+            out.append({"path": f"{tag}{k}.x", "language": lang, "runs": runs})
+        return out
+
+    cur = big("c")
+    prev = big("p") if draw(st.sampled_from([True, True, True, False])) else None
+    return {"kind": "narrow", "current": cur, "previous": prev, "widths": [80, 100, 120]}
+
+
+def gen_narrow(col, seed, n):
+    def body(case):
+        col.eval(case, nontrivial=case["previous"] is not None, labels=["overview-narrow", "with-previous" if case["previous"] is not None else "no-previous"])
+
+    run_given(body, narrow_cases(), seed, n)
 
 
 def _changed(case):
@@ -462,4 +559,6 @@ def plan(tier, seed):
     for i in range(8):
         jobs.append(("gen_overview", {"seed": shard_seed(seed, ID, f"o{i}"), "n": total // 16}))
         jobs.append(("gen_findings", {"seed": shard_seed(seed, ID, f"f{i}"), "n": total // 16}))
+    for i in range(4):
+        jobs.append(("gen_narrow", {"seed": shard_seed(seed, ID, f"n{i}"), "n": 5 if tier == "quick" else 60}))
     return jobs
